@@ -7,6 +7,11 @@ From DV Require Import Common.Res Common.Str Ext.Types Ext.Classes Ext.Seq Ext.M
 Import ListNotations.
 Local Open Scope nat_scope.
 
+Lemma dk_in k l : In k l -> In k (dedup_keys [] l).
+Proof. apply dedup_keys_nil_In. Qed.
+Lemma dk_out k l : In k (dedup_keys [] l) -> In k l.
+Proof. apply dedup_keys_nil_In. Qed.
+
 Section WithV.
   Context {V : Type} (veqb : V -> V -> bool) (vnone : V).
 
@@ -85,7 +90,6 @@ Section WithV.
     assert (Hmk : map_keys f' keys' = Ok (collect (map (fun k => (k, assoc k ents)) keys'))).
     { unfold map_keys. rewrite Hm. reflexivity. }
     split; [exact Hmk|]. split; [apply (map_keys_NoDup _ _ _ Hmk Hnd')|].
-    destruct (fun k => map_keys_assoc f' keys' _ k Hmk Hnd') as [_ _] eqn:Edummy; clear Edummy.
     split.
     - intros k Hin. destruct (map_keys_assoc f' keys' _ k Hmk Hnd') as [H1 _]. specialize (H1 Hin).
       destruct (Hsub k Hin) as [Hin0 Hf]. rewrite Hf in H1.
@@ -105,8 +109,8 @@ Section WithV.
     destruct (map_keys_transfer _ (fun k => subset_k veqb vnone (hdr_of e) hr dim idx (lookup_e e' k))
                                 _ (dedup_keys [] (keys_e e')) ents Hents (dedup_keys_NoDup _ _) (dedup_keys_NoDup _ _))
       as [ents' [Hm [Hnd' [H1 H2]]]].
-    { intros k Hk. apply dedup_keys_nil_In in Hk. split.
-      - apply dedup_keys_nil_In. apply (ext_equiv_keys e e' k Heq). exact Hk.
+    { intros k Hk. apply dk_out in Hk. split.
+      - apply dk_in. apply (ext_equiv_keys e e' k Heq). exact Hk.
       - rewrite Hl. reflexivity. }
     rewrite Hm. cbn [bind]. eexists. split; [reflexivity|]. split; [reflexivity|].
     intros k. unfold lookup_e. cbn [entries].
@@ -114,7 +118,7 @@ Section WithV.
     - symmetry. apply H1. exact Hi.
     - rewrite (H2 k Hn).
       destruct (map_keys_assoc _ _ _ k Hents (dedup_keys_NoDup _ _)) as [_ H3]. apply H3.
-      intros Hin. apply Hn. apply dedup_keys_nil_In. apply (ext_equiv_keys e e' k Heq). apply dedup_keys_nil_In. exact Hin.
+      intros Hin. apply Hn. apply dk_in. apply (ext_equiv_keys e e' k Heq). apply dk_out. exact Hin.
   Qed.
 
   Theorem subset_proj (e r : ext) k dim idx :
@@ -128,17 +132,17 @@ Section WithV.
     destruct (map_keys_transfer _ (fun k' => subset_k veqb vnone (hdr_of e) hr dim idx (lookup_e (proj k e) k'))
                                 _ (dedup_keys [] (keys_e (proj k e))) ents Hents (dedup_keys_NoDup _ _) (dedup_keys_NoDup _ _))
       as [ents' [Hm [Hnd' [H1 H2]]]].
-    { intros k' Hk. apply dedup_keys_nil_In in Hk. apply keys_proj in Hk as [-> Hin]. split.
-      - apply dedup_keys_nil_In. exact Hin.
+    { intros k' Hk. apply dk_out in Hk. apply keys_proj in Hk as [-> Hin]. split.
+      - apply dk_in. exact Hin.
       - rewrite lookup_proj, key_eqb_refl. reflexivity. }
     rewrite Hm. cbn [bind]. eexists. split; [reflexivity|]. split; [reflexivity|].
     intros k'. rewrite lookup_proj. unfold lookup_e. cbn [entries].
     destruct (in_dec (list_eq_dec N.eq_dec) k' (dedup_keys [] (keys_e (proj k e)))) as [Hi|Hn].
-    - rewrite (H1 k' Hi). apply dedup_keys_nil_In, keys_proj in Hi as [-> _]. rewrite key_eqb_refl. reflexivity.
+    - rewrite (H1 k' Hi). apply dk_out in Hi. apply keys_proj in Hi as [-> _]. rewrite key_eqb_refl. reflexivity.
     - rewrite (H2 k' Hn). destruct (key_eqb k k') eqn:E; [|reflexivity].
       apply key_eqb_eq in E. subst k'. symmetry.
       destruct (map_keys_assoc _ _ _ k Hents (dedup_keys_NoDup _ _)) as [_ H3]. apply H3.
-      intros Hin. apply Hn. apply dedup_keys_nil_In. apply keys_proj. split; [reflexivity|]. apply dedup_keys_nil_In. exact Hin.
+      intros Hin. apply Hn. apply dk_in. apply keys_proj. split; [reflexivity|]. apply dk_out. exact Hin.
   Qed.
 
   (** * from_sequence *)
@@ -155,7 +159,7 @@ Section WithV.
   Lemma Forall2_equiv_keys (es es' : list ext) k :
     Forall2 (ext_equiv (V:=V)) es es' -> (In k (flat_map (@keys_e V) es) <-> In k (flat_map (@keys_e V) es')).
   Proof.
-    induction 1 as [|a b l l' Hab _ IH]; cbn [flat_map]; [tauto|].
+    induction 1 as [|a b l l' Hab _ IH]; cbn [flat_map]; [cbn [In]; tauto|].
     rewrite !in_app_iff, IH, (ext_equiv_keys a b k Hab). tauto.
   Qed.
 
@@ -169,8 +173,8 @@ Section WithV.
     destruct (map_keys_transfer _ (fun k => merge_k veqb vnone hfull dim (map (fun e : ext => (hdr_of e, lookup_e e k)) es'))
                                 _ (dedup_keys [] (flat_map (@keys_e V) es')) ents Hents (dedup_keys_NoDup _ _) (dedup_keys_NoDup _ _))
       as [ents' [Hm [Hnd' [H1 H2]]]].
-    { intros k Hk. apply dedup_keys_nil_In in Hk. split.
-      - apply dedup_keys_nil_In. apply (Forall2_equiv_keys es es' k Heq). exact Hk.
+    { intros k Hk. apply dk_out in Hk. split.
+      - apply dk_in. apply (Forall2_equiv_keys es es' k Heq). exact Hk.
       - rewrite (Forall2_equiv_ins _ _ k Heq). reflexivity. }
     rewrite Hm. cbn [bind]. eexists. split; [reflexivity|]. split; [reflexivity|].
     intros k. unfold lookup_e. cbn [entries].
@@ -178,7 +182,7 @@ Section WithV.
     - symmetry. apply H1. exact Hi.
     - rewrite (H2 k Hn).
       destruct (map_keys_assoc _ _ _ k Hents (dedup_keys_NoDup _ _)) as [_ H3]. apply H3.
-      intros Hin. apply Hn. apply dedup_keys_nil_In. apply (Forall2_equiv_keys es es' k Heq). apply dedup_keys_nil_In. exact Hin.
+      intros Hin. apply Hn. apply dk_in. apply (Forall2_equiv_keys es es' k Heq). apply dk_out. exact Hin.
   Qed.
 
   Lemma proj_ins (es : list ext) k :
@@ -190,7 +194,7 @@ Section WithV.
   Lemma proj_keys (es : list ext) k k' :
     In k' (flat_map (@keys_e V) (map (proj k) es)) <-> k' = k /\ In k (flat_map (@keys_e V) es).
   Proof.
-    induction es as [|e es IH]; cbn [map flat_map]; [tauto|].
+    induction es as [|e es IH]; cbn [map flat_map]; [cbn [In]; tauto|].
     rewrite !in_app_iff, IH, keys_proj. tauto.
   Qed.
 
@@ -205,16 +209,16 @@ Section WithV.
     destruct (map_keys_transfer _ (fun k' => merge_k veqb vnone hfull dim (map (fun e : ext => (hdr_of e, lookup_e e k')) (map (proj k) es)))
                                 _ (dedup_keys [] (flat_map (@keys_e V) (map (proj k) es))) ents Hents (dedup_keys_NoDup _ _) (dedup_keys_NoDup _ _))
       as [ents' [Hm [Hnd' [H1 H2]]]].
-    { intros k' Hk. apply dedup_keys_nil_In in Hk. apply proj_keys in Hk as [-> Hin]. split.
-      - apply dedup_keys_nil_In. exact Hin.
+    { intros k' Hk. apply dk_out in Hk. apply proj_keys in Hk as [-> Hin]. split.
+      - apply dk_in. exact Hin.
       - rewrite proj_ins. reflexivity. }
     rewrite Hm. cbn [bind]. eexists. split; [reflexivity|]. split; [reflexivity|].
     intros k'. rewrite lookup_proj. unfold lookup_e. cbn [entries].
     destruct (in_dec (list_eq_dec N.eq_dec) k' (dedup_keys [] (flat_map (@keys_e V) (map (proj k) es)))) as [Hi|Hn].
-    - rewrite (H1 k' Hi). apply dedup_keys_nil_In, proj_keys in Hi as [-> _]. rewrite key_eqb_refl. reflexivity.
+    - rewrite (H1 k' Hi). apply dk_out in Hi. apply proj_keys in Hi as [-> _]. rewrite key_eqb_refl. reflexivity.
     - rewrite (H2 k' Hn). destruct (key_eqb k k') eqn:E; [|reflexivity].
       apply key_eqb_eq in E. subst k'. symmetry.
       destruct (map_keys_assoc _ _ _ k Hents (dedup_keys_NoDup _ _)) as [_ H3]. apply H3.
-      intros Hin. apply Hn. apply dedup_keys_nil_In. apply proj_keys. split; [reflexivity|]. apply dedup_keys_nil_In. exact Hin.
+      intros Hin. apply Hn. apply dk_in. apply proj_keys. split; [reflexivity|]. apply dk_out. exact Hin.
   Qed.
 End WithV.
